@@ -6,6 +6,14 @@ VERIF = os.path.dirname(os.path.dirname(os.path.abspath(__file__)))
 rnd, outroot, wtprefix = sys.argv[1], sys.argv[2], sys.argv[3]
 props = [json.loads(l) for l in open(os.path.join(VERIF, "properties.jsonl"))]
 EMPH = {
+ "13": ("This round: TWINS. This code base is full of near-duplicates: the IPFIX and NetFlow v9 decoders, template caches and JSON encoders; "
+       "the four protocol listeners and workers in ./vflow; IPv4 versus IPv6 branches; plain versus options templates (scope fields versus "
+       "ordinary fields); flow samples versus counter samples and their expanded forms; the IPFIX and sFlow mirror paths; tcp versus udp in the "
+       "producer; the three configuration sources. Seed a defect of the kind that lives between twins: a change or fix applied to one twin and "
+       "carried over to the other with a slip (the wrong variable, constant, field, index base or comparison survives the copy), or two twins "
+       "merged into one shared helper that is right for one of them and subtly wrong for the other, or a loop / switch that handles all "
+       "siblings but one. The twin that is exercised by ordinary traffic and by the existing tests must stay correct. Different mechanism, "
+       "code site and trigger from everything listed; not detectable by a data-race detector alone."),
  "12": ("This round: a CONTRACT CHANGE between two pieces of code — a helper, method or type keeps its signature but its convention changes "
        "slightly (nil versus empty result, error versus zero value, who owns or may keep a buffer or slice after the call, inclusive versus "
        "exclusive bound, units, whether a count includes a header, whether a map/slice result is shared or copied, whether the call may block, "
